@@ -137,6 +137,11 @@ func fanScenario(s *hx.Seq) {
 					return true
 				}
 				if err != nil {
+					// an update that is answered with an error has not happened
+					if after := m.FanSpeed(); !proto.Equal(after, before) && step == len(path)-1 {
+						s.Fail("fan-rejected-update-changed "+name, fmt.Sprintf("UpdateFanSpeed answered %v, the fan speed went from %v to %v", err, before, after), nil)
+						return true
+					}
 					continue
 				}
 				cur := m.FanSpeed()
